@@ -156,6 +156,7 @@ func main() {
 		for pos, in := range j.Inputs {
 			var res rt.Result
 			run := rt.Begin(fuel)
+				run.Input = in
 			begin(pos, in)
 			if j.Trace {
 				tr := capture(func() { res = p.Run(in, true, run, true) })
@@ -181,6 +182,7 @@ func main() {
 				last = last[:0]
 				for k, in := range j.Inputs {
 					run := rt.Begin(fuel)
+				run.Input = in
 					begin(len(j.Inputs)+k, in)
 					var res rt.Result
 					if p.Object {
@@ -213,6 +215,7 @@ func main() {
 				kk := k
 				rt.Hold = func(read func() (int, string)) { held, heldAt = append(held, read), append(heldAt, kk) }
 				run := rt.Begin(fuel)
+				run.Input = in
 				begin(len(j.Inputs)+hi, in)
 				var res rt.Result
 				switch j.HistoryMode {
